@@ -2018,7 +2018,8 @@ func (interp *Interpreter) cfg(root *node, sc *scope, importPath, pkgName string
 				}
 			}
 			returnSig := sc.def.child[2]
-			if mustReturnValue(returnSig) {
+			if mustReturnValue(returnSig) || len(n.child) > 0 {
+				// With named results a return statement has no value, or all of them.
 				nret := len(n.child)
 				if nret == 1 && isCall(n.child[0]) {
 					nret = n.child[0].child[0].typ.numOut()
